@@ -30,6 +30,7 @@ import (
 	"io"
 	"os"
 	"os/exec"
+	"regexp"
 	"runtime"
 	"strings"
 	"sync"
@@ -369,6 +370,16 @@ type c08Fail struct {
 	sig, detail string
 }
 
+var c08MustRe = regexp.MustCompile(`(MustMarshalToBytes|MustUnmarshalFromBytes)\(\) fails for object=(\S+) err=(.*?)( <nil>|$)`)
+
+// c08PanicClass gives a narrow class for a panic text (call site / cause, no addresses).
+func c08PanicClass(p string) string {
+	if m := c08MustRe.FindStringSubmatch(p); m != nil {
+		return m[1] + ":" + m[2] + ":" + c08ErrClass(m[3])
+	}
+	return c08ErrClass(p)
+}
+
 func c08Hex(b []byte) string {
 	if len(b) > 24 {
 		return fmt.Sprintf("%x..(%d bytes)", b[:24], len(b))
@@ -385,7 +396,7 @@ func (w *c08World) evaluate(c c08Case, in []byte) (v c08Verdict, fails []c08Fail
 	var bd module.BlockData
 	var err error
 	if p := ev.Catch(func() { bd, err = w.bdf.NewBlockDataFromReader(c08Reader(c.Reader, in)) }); p != "" {
-		fail("panic-in-decode:"+c.Fam, "NewBlockDataFromReader panicked: %s", p)
+		fail("panic-in-decode:"+c08PanicClass(p), "NewBlockDataFromReader panicked: %s", p)
 		return
 	}
 	if c.Fam == "id" && err != nil {
@@ -441,18 +452,18 @@ func (w *c08World) evaluate(c c08Case, in []byte) (v c08Verdict, fails []c08Fail
 		}
 		re = buf.Bytes()
 	}); p != "" {
-		fail("panic-after-decode:"+c.Fam, "accessing / re-marshalling a successfully decoded block panicked: %s", p)
+		fail("panic-after-decode:"+c08PanicClass(p), "accessing / re-marshalling a successfully decoded block panicked: %s", p)
 		return
 	}
 	if p := ev.Catch(func() { _, _ = bd.ToJSON(module.JSONVersion3) }); p != "" {
-		fail("panic-in-ToJSON:"+c.Fam, "ToJSON of a successfully decoded block panicked: %s", p)
+		fail("panic-in-ToJSON:"+c08PanicClass(p), "ToJSON of a successfully decoded block panicked: %s", p)
 	}
 
 	// (a) re-marshal -> decode -> same id
 	var bd2 module.BlockData
 	var err2 error
 	if p := ev.Catch(func() { bd2, err2 = w.bdf.NewBlockDataFromReader(bytes.NewReader(re)) }); p != "" {
-		fail("panic-in-redecode:"+c.Fam, "decoding the re-marshalled block panicked: %s", p)
+		fail("panic-in-redecode:"+c08PanicClass(p), "decoding the re-marshalled block panicked: %s", p)
 	} else if err2 != nil {
 		fail("remarshal-not-decodable", "re-marshalled block does not decode: %v", err2)
 	} else if !bytes.Equal(bd2.ID(), id) {
@@ -529,9 +540,9 @@ func (w *c08World) evaluate(c c08Case, in []byte) (v c08Verdict, fails []c08Fail
 // network-digest list is decoded with the same loop as
 // btp.(*networkDigestSlice).RLPDecodeSelf (leave on io.EOF only) but capped, so
 // that it can tell, without running the real decoder, whether the real one
-// would spin. It is used only to decide which inputs must not be executed
-// in-process; the verdict itself always comes from the real code (child
-// process canaries / in-process run).
+// would spin. It is used only to pick canary inputs; the verdict itself always
+// comes from the real code (canaries executed twice in child processes before
+// anything is run in-process).
 
 type c08ND struct {
 	NetworkID          int64
@@ -694,6 +705,21 @@ func c08RunInChild(c c08Case, nBlocks int) (runaway bool, out string, err error)
 	return false, out, fmt.Errorf("child gave no verdict: %q", out)
 }
 
+// c08ConfirmRunaway runs the case twice in fresh child processes; the decoder is
+// said not to terminate only if both children report a runaway (allocation of
+// more than 768 MB during the one decode, or still decoding after 90 s).
+func c08ConfirmRunaway(c c08Case, nBlocks int) (runaway bool, out string, err error) {
+	ra1, out1, err1 := c08RunInChild(c, nBlocks)
+	if err1 != nil || !ra1 {
+		return false, out1, err1
+	}
+	ra2, out2, err2 := c08RunInChild(c, nBlocks)
+	if err2 != nil {
+		return false, out2, err2
+	}
+	return ra2, out1 + " | " + out2, nil
+}
+
 // enumerate calls fn for every case of the tier in a fixed order.
 func (w *c08World) enumerate(thorough bool, fn func(c c08Case)) {
 	readers := []string{"seek", "stream"}
@@ -794,18 +820,17 @@ type c08Stats struct {
 	rejected map[string]int64
 	sameID   map[string]int64 // decoded mutants (not "id") with the id of a chain block
 	otherID  map[string]int64 // decoded mutants with a new id
-	skipped  map[string]int64 // not executed: predicted to hit the confirmed non-terminating decode
 	errs     map[string]int64
 }
 
 func c08NewStats() *c08Stats {
-	return &c08Stats{decoded: map[string]int64{}, rejected: map[string]int64{}, sameID: map[string]int64{}, otherID: map[string]int64{}, skipped: map[string]int64{}, errs: map[string]int64{}}
+	return &c08Stats{decoded: map[string]int64{}, rejected: map[string]int64{}, sameID: map[string]int64{}, otherID: map[string]int64{}, errs: map[string]int64{}}
 }
 
 func (s *c08Stats) merge(o *c08Stats) {
 	s.mu.Lock()
 	defer s.mu.Unlock()
-	for _, p := range []struct{ d, s map[string]int64 }{{s.decoded, o.decoded}, {s.rejected, o.rejected}, {s.sameID, o.sameID}, {s.otherID, o.otherID}, {s.skipped, o.skipped}, {s.errs, o.errs}} {
+	for _, p := range []struct{ d, s map[string]int64 }{{s.decoded, o.decoded}, {s.rejected, o.rejected}, {s.sameID, o.sameID}, {s.otherID, o.otherID}, {s.errs, o.errs}} {
 		for k, v := range p.s {
 			p.d[k] += v
 		}
@@ -830,7 +855,7 @@ func c08ErrClass(s string) string {
 				}
 				j++
 			}
-			if j-i >= 8 || digits == j-i {
+			if j-i >= 8 || digits == j-i || (j-i > 2 && s[i] == '0' && s[i+1] == 'x') {
 				out = append(out, '#')
 			} else {
 				out = append(out, s[i:j]...)
@@ -853,12 +878,8 @@ type c08Current struct {
 	start time.Time
 }
 
-func (w *c08World) check(r *ev.Run, c c08Case, st *c08Stats, skipPredicted bool, cur *atomic.Pointer[c08Current]) {
+func (w *c08World) check(r *ev.Run, c c08Case, st *c08Stats, cur *atomic.Pointer[c08Current]) {
 	in := w.input(c)
-	if skipPredicted && c08PredictRunaway(in) {
-		st.skipped[c.Fam]++
-		return
-	}
 	if cur != nil {
 		cur.Store(&c08Current{c, time.Now()})
 		defer cur.Store(nil)
@@ -869,6 +890,9 @@ func (w *c08World) check(r *ev.Run, c c08Case, st *c08Stats, skipPredicted bool,
 		if c.Fam != "id" {
 			if v.sameAs >= 0 {
 				st.sameID[c.Fam]++
+				if os.Getenv("C08_DEBUG_SAMEID") != "" && c.Fam == "subst" {
+					fmt.Printf("SAMEID blk=%d pos=%d hdr=%d old=%02x new=%02x\n", c.Blk, c.Pos, w.blocks[c.Blk].hdrLen, w.blocks[c.Blk].enc[c.Pos], c.Val)
+				}
 			} else {
 				st.otherID[c.Fam]++
 			}
@@ -908,7 +932,7 @@ func TestVerifC08(t *testing.T) {
 		}
 		defer w.close()
 		if c08PredictRunaway(w.input(c)) {
-			ra, out, err := c08RunInChild(c, 7)
+			ra, out, err := c08ConfirmRunaway(c, 7)
 			fmt.Printf("REPLAY C08 child: runaway=%v %s err=%v\n", ra, out, err)
 			if ra {
 				r.Violation(c08RunawaySig, "NewBlockDataFromReader does not terminate (memory grows without bound) on case="+c.key()+"; "+out, c)
@@ -917,7 +941,7 @@ func TestVerifC08(t *testing.T) {
 			}
 		}
 		st := c08NewStats()
-		w.check(r, c, st, false, nil)
+		w.check(r, c, st, nil)
 		fmt.Printf("REPLAY C08 decoded=%v rejected=%v errs=%v\n", st.decoded, st.rejected, st.errs)
 		r.Finish(false)
 		return
@@ -960,7 +984,7 @@ func TestVerifC08(t *testing.T) {
 		}
 		results := make([]res, len(canaries))
 		ev.Par(len(canaries), len(canaries), func(i int) {
-			ra, out, err := c08RunInChild(canaries[i], nBlocks)
+			ra, out, err := c08ConfirmRunaway(canaries[i], nBlocks)
 			results[i] = res{ra, out, err}
 		})
 		for i, c := range canaries {
@@ -975,6 +999,17 @@ func TestVerifC08(t *testing.T) {
 				r.Violation(c08RunawaySig, "NewBlockDataFromReader does not terminate (memory grows without bound) on a block whose body carries a truncated BTP digest: case="+c.key()+"; child process: "+results[i].out, c)
 			}
 		}
+	}
+
+	if defect {
+		// the real decoder does not terminate on inputs of the space: nothing more can be
+		// executed in-process (a spinning goroutine cannot be stopped)
+		r.Cap("decoder does not terminate on a canary input (confirmed twice in child processes); exploration not started")
+		r.Set("runaway_canaries_in_child_process", canaryRuns)
+		r.Set("runaway_confirmed", true)
+		r.Sample(map[string]interface{}{"canary": canaryRuns[0]})
+		r.Finish(false)
+		return
 	}
 
 	total := c08NewStats()
@@ -997,8 +1032,14 @@ func TestVerifC08(t *testing.T) {
 			}
 			for i := range currents {
 				if cc := currents[i].Load(); cc != nil && time.Since(cc.start) > 3*time.Minute {
-					r.Violation("decode-does-not-terminate:unpredicted", "NewBlockDataFromReader still running after 3 minutes on case="+cc.c.key(), cc.c)
-					r.Cap("aborted: a decode did not terminate")
+					// never a wall-clock-only verdict: confirm in two child processes
+					ra, out, err := c08ConfirmRunaway(cc.c, nBlocks)
+					if ra {
+						r.Violation("decode-does-not-terminate:unpredicted", "NewBlockDataFromReader does not terminate on case="+cc.c.key()+"; child processes: "+out, cc.c)
+					} else {
+						r.Sanity(false, "C08: case %s ran for more than 3 minutes in-process but terminated in child processes (%s, %v)", cc.c.key(), out, err)
+					}
+					r.Cap("aborted: a decode was still running after 3 minutes")
 					r.Finish(false)
 					c08RemoveBases()
 					os.Exit(1)
@@ -1048,7 +1089,7 @@ func TestVerifC08(t *testing.T) {
 				}
 			}
 			r.Nontrivial(c.key())
-			w.check(r, c, st, defect, &currents[wk])
+			w.check(r, c, st, &currents[wk])
 		})
 		r.Eval(n % 256)
 		if abort {
@@ -1064,13 +1105,6 @@ func TestVerifC08(t *testing.T) {
 	close(guardDone)
 
 	complete := !incomplete.Load()
-	var nSkipped int64
-	for _, v := range total.skipped {
-		nSkipped += v
-	}
-	if nSkipped > 0 {
-		r.Cap(fmt.Sprintf("%d inputs predicted to hit the confirmed non-terminating BTP digest decode were not executed", nSkipped))
-	}
 	// vacuity guards
 	r.Sanity(total.decoded["id"] == int64(2*(nBlocks+1)) || !complete, "C08 vacuity: %d own encodings decoded, want %d", total.decoded["id"], 2*(nBlocks+1))
 	for _, fam := range []string{"trunc", "subst", "del", "dup", "splice", "cross", "inner"} {
@@ -1099,7 +1133,6 @@ func TestVerifC08(t *testing.T) {
 	r.Set("rejected_by_family", total.rejected)
 	r.Set("decoded_mutants_with_chain_block_id", total.sameID)
 	r.Set("decoded_mutants_with_new_id", total.otherID)
-	r.Set("skipped_predicted_runaway_by_family", total.skipped)
 	r.Set("runaway_canaries_in_child_process", canaryRuns)
 	r.Set("runaway_confirmed", defect)
 	r.Set("distinct_rejection_messages", len(total.errs))
@@ -1111,5 +1144,5 @@ func TestVerifC08(t *testing.T) {
 		r.Sample(map[string]interface{}{"case": c08Case{Fam: "trunc", Blk: 2, Pos: len(e)/2 - 1, Reader: "stream"}, "input": e[:len(e)-2], "oracle": "no panic; error or a block bound to the input header"})
 		r.Sample(map[string]interface{}{"case": c08Case{Fam: "cross", Blk: 3, Donor: 2, Parts: 4, Reader: "seek"}, "oracle": "header of block 3 with the votes of block 2: must not decode to a block with the id of block 3"})
 	}
-	r.Finish(complete && !defect)
+	r.Finish(complete)
 }
